@@ -6,6 +6,16 @@ open Lean Drv Route C06 C15 Drv.EvalCase Drv.C15Parse
 namespace Drv.C15
 
 def handle (j : Json) : R (List (String × Json)) := do
+  if (fldD j "k" Json.null) == Json.str "swapstar" then
+    -- the SWAP* operator under seven pool layouts, twice each: one outcome (tours and fitness bits), whatever the layout
+    let impl ← fld j "impl"
+    let outcomes ← arrF impl "outcomes"
+    let same := match outcomes with
+      | [] => true
+      | o :: rest => rest.all (fun x => x.compress == o.compress)
+    return [("model", impl),
+            ("oracle", Json.mkObj [("swap_star_outcome_does_not_depend_on_the_pool", Json.bool same)]),
+            ("info", Json.mkObj [("successes", jNat 2), ("multi_task_candidates", jNat 0), ("distinct_costs", jNat 2)])]
   let m : Mat := { n := ← natF j "n", dur := ← listF asInt j "dur", dist := ← listF asInt j "dist" }
   let obj := if (← strF j "obj") == "cost" then Objective.cost else Objective.distance
   let routes ← listF (parseRouteCtx m obj) j "routes"
